@@ -188,6 +188,13 @@ def api_list():
                                 filter_threshold=thr(None, 0.5), exclude_percentile=30)
             touch_all(b, skip=('background_mesh_masked', 'background_rms_mesh_masked', 'mesh_nmasked'))
             b2 = pb.Background2D(D, D.shape, mask=M, exclude_percentile=60)    # box == image: the "copy needed" path
+            # box geometries for which the block reshape is a view of the data: full-width boxes, boxes of height / width 1
+            for bs in ((D.shape[0] // 3, D.shape[1]), (D.shape[0], D.shape[1] // 2), (1, 7), (6, 1)):
+                try:
+                    touch_all(pb.Background2D(D, bs, mask=M, exclude_percentile=60, filter_size=1),
+                              skip=('background_mesh_masked', 'background_rms_mesh_masked', 'mesh_nmasked'))
+                except ValueError:
+                    pass
             touch_all(b2, skip=('background_mesh_masked', 'background_rms_mesh_masked', 'mesh_nmasked'))
             for cls in (pb.MeanBackground, pb.MedianBackground, pb.ModeEstimatorBackground, pb.MMMBackground, pb.SExtractorBackground,
                         pb.BiweightLocationBackground, pb.StdBackgroundRMS, pb.MADStdBackgroundRMS, pb.BiweightScaleBackgroundRMS):
@@ -250,6 +257,7 @@ def api_list():
         sl = (slice(int(y0) - 6, int(y0) + 7), slice(int(x0) - 6, int(x0) + 7))
         Dc, Ec, Mc = D[sl], E[sl], M[sl]
         fp = np.ones((5, 5), bool)
+        fp[0, 0] = fp[0, -1] = fp[-1, 0] = fp[-1, -1] = False      # excluded footprint elements are OR-ed into the mask cut-outs
         xs, ys = np.array([x0]), np.array([y0])
         ins = dict(data=D, cut=Dc, error=E, mask=M, cutmask=Mc, footprint=fp, xpos=xs, ypos=ys)
 
@@ -262,7 +270,7 @@ def api_list():
                 f(Dc, error=Ec, mask=Mc)
                 f(Dc)
             pc.centroid_sources(D, xs, ys, box_size=7, mask=M, error=E, centroid_func=pc.centroid_2dg)
-            pc.centroid_sources(D, xs, ys, footprint=fp, mask=M)
+            pc.centroid_sources(D, np.array([xs[0], xs[0] + 2.0]), np.array([ys[0], ys[0] + 1.0]), footprint=fp, mask=M)
         return ins, go
 
     def profiles(sc, D, E, M, U):
